@@ -4,6 +4,9 @@
  * replaced by this server).  Included by zh.c. */
 
 struct resp { char *hdr; size_t hdr_len; char *body; size_t body_len; int nranges; };
+/* offsets in the body just behind each part's payload (fragmentation mode "parts") */
+static size_t g_part_ends[4096];
+static int g_npart_ends = 0;
 
 static char *slurp(const char *path, size_t *len) {
     int fd = open(path, O_RDONLY);
@@ -45,6 +48,7 @@ static int build_response(const char *rstr, const char *B, size_t Blen, int styl
     }
     memset(rp, 0, sizeof(*rp));
     rp->nranges = n;
+    g_npart_ends = 0;
     size_t hcap = 512, bcap = 4096;
     rp->hdr = malloc(hcap);
     rp->body = malloc(bcap);
@@ -57,6 +61,7 @@ static int build_response(const char *rstr, const char *B, size_t Blen, int styl
         k = snprintf(tmp, sizeof(tmp), "Content-Range: bytes %zu-%zu/%zu\r\n\r\n", starts[0], ends[0], Blen);
         APPEND(rp->hdr, rp->hdr_len, hcap, tmp, k);
         APPEND(rp->body, rp->body_len, bcap, B + starts[0], ends[0] - starts[0] + 1);
+        g_part_ends[g_npart_ends++] = rp->body_len;
         return 1;
     }
     if(style & 1) k = snprintf(tmp, sizeof(tmp), "%s: multipart/byteranges; boundary=\"%s\"\r\n", (style & 2) ? "CONTENT-TYPE" : "Content-Type", boundary);
@@ -79,6 +84,7 @@ static int build_response(const char *rstr, const char *B, size_t Blen, int styl
         }
         APPEND(rp->body, rp->body_len, bcap, "\r\n", 2);
         APPEND(rp->body, rp->body_len, bcap, B + starts[i], ends[i] - starts[i] + 1);
+        if(g_npart_ends < 4096) g_part_ends[g_npart_ends++] = rp->body_len;
     }
     k = snprintf(tmp, sizeof(tmp), "\r\n--%s--\r\n", boundary);
     APPEND(rp->body, rp->body_len, bcap, tmp, k);
@@ -110,6 +116,17 @@ static size_t feed_frag(zckDL *dl, char *data, size_t len, const char *frag, int
     return feed_frag_kg(dl, data, len, frag, kind, 0);
 }
 static size_t feed_frag_kg(zckDL *dl, char *data, size_t len, const char *frag, int kind, int keep_going) {
+    if(frag && !strcmp(frag, "parts") && kind == 0) {
+        /* one callback per part, ending exactly on the part's last payload byte */
+        size_t cap = 64 + 24 * (size_t)g_npart_ends, o = 0;
+        char *spec = malloc(cap);
+        o += snprintf(spec + o, cap - o, "cuts:");
+        for(int i = 0; i < g_npart_ends; i++) o += snprintf(spec + o, cap - o, "%zu,", g_part_ends[i]);
+        size_t r = feed(dl, data, len, spec, kind, keep_going);
+        free(spec);
+        return r;
+    }
+    if(frag && !strcmp(frag, "parts")) frag = "all";
     if(frag && !strncmp(frag, "rand:", 5)) {
         unsigned long long seed = 1, mx = 16384;
         sscanf(frag + 5, "%llu:%llu", &seed, &mx);
